@@ -2,7 +2,7 @@
 import os, json, random, warnings
 from hypothesis import strategies as st
 
-from amaranth.hdl import Module, ClockDomain
+from amaranth.hdl import Module, ClockDomain, Fragment
 from amaranth.lib.crc import Algorithm, Parameters, Processor, catalog
 from amaranth.sim import Simulator
 
@@ -241,23 +241,27 @@ def hw_cases(draw, ncyc):
         valid = {0: draw(INT(0, 1)), 1: 1, 2: 0, 3: draw(INT(0, 1))}[mode]
         start = 1 if draw(INT(0, 9 if mode != 3 else 2)) == 0 else 0
         cyc.append([start, valid, draw(st.one_of(st.sampled_from([0, hi]), INT(0, hi)))])
-    return {"p": p, "dw": dw, "cycles": cyc}
+    return {"p": p, "dw": dw, "cycles": cyc, "elaborations": 2 if draw(INT(0, 3)) == 0 else 1}
 
 
-def make_proc(p, dw):
+def make_proc(p, dw, elaborations=1):
+    """`elaborations` > 1: the same Processor object has been elaborated before (as when a design is converted and
+    then simulated); the hardware must be the same every time."""
     with warnings.catch_warnings():
         warnings.simplefilter("ignore")
         m = Module()
         cd = ClockDomain("sync")
         m.domains += cd
         m.submodules.crc = proc = Parameters(algo_of(p), dw).create()
+        for _ in range(elaborations - 1):
+            Fragment.get(m, None)
         sim = Simulator(m)
     return sim, cd, proc
 
 
 def hw_body(ctx, case):
     p, dw, cycles = case["p"], case["dw"], case["cycles"]
-    sim, cd, proc = make_proc(p, dw)
+    sim, cd, proc = make_proc(p, dw, case.get("elaborations", 1))
     fail = []
     st_ = dict(restart_after_data=False, idle_gap=False, start_with_valid=False, start_without_valid=False,
                back_to_back=False)
@@ -297,6 +301,7 @@ def hw_body(ctx, case):
     if fail:
         raise fail[0]
     keys = ["hw:" + k for k, v in st_.items() if v]
+    if case.get("elaborations", 1) > 1: keys.append("hw:processor-elaborated-before")
     ctx.note(case, st_["restart_after_data"] and st_["idle_gap"], *keys, evals=len(cycles))
 
 
@@ -384,7 +389,7 @@ def parts(tier):
 
 REQUIRED = ["cat:entry", "cat:check-repacked", "sw:refin0-refout0", "sw:refin0-refout1", "sw:refin1-refout0",
             "sw:refin1-refout1", "sw:dw>crc", "sw:dw<crc", "sw:even-poly", "hw:restart_after_data", "hw:idle_gap",
-            "hw:start_with_valid", "hw:start_without_valid", "hw:back_to_back", "match:positive", "match:negative",
+            "hw:start_with_valid", "hw:start_without_valid", "hw:back_to_back", "hw:processor-elaborated-before", "match:positive", "match:negative",
             "match:refin!=refout", "match:multi-word-trailer", "match:all-trailers-exhaustive"]
 
 
